@@ -220,6 +220,38 @@ def _arr(v):
     return np.asarray(v, dtype=float)
 
 
+def _plain(v):
+    return v is None or isinstance(v, (bool, int, float, str, np.integer, np.floating)) or (
+        isinstance(v, (list, tuple)) and len(v) <= 16 and all(_plain(x) for x in v))
+
+
+def generic_deep(prefix, obj):
+    out = {}
+    d = getattr(obj, "__dict__", None)
+    if d is None:
+        return out
+    out[prefix + ".vars"] = tuple(sorted(d))
+    for k, v in d.items():
+        if _plain(v):
+            out[f"{prefix}.{k}"] = repr(v)
+        elif isinstance(v, np.ndarray) and v.size <= 4096 and v.dtype != object:
+            out[f"{prefix}.{k}"] = v.copy()
+    return out
+
+
+def deep_changed(a, b):
+    names = sorted(set(a) ^ set(b))
+    for k in sorted(set(a) & set(b)):
+        x, y = a[k], b[k]
+        if isinstance(x, np.ndarray) or isinstance(y, np.ndarray):
+            same = isinstance(x, np.ndarray) and isinstance(y, np.ndarray) and x.shape == y.shape and bool(np.array_equal(x, y, equal_nan=True))
+        else:
+            same = x == y
+        if not same:
+            names.append(k)
+    return names
+
+
 class Adapter:
     name = "?"
     lean = "?"
@@ -251,6 +283,12 @@ class Adapter:
 
     def attrs(self, est):
         return {}
+
+    def deep(self, est):
+        """name -> value (hashable or ndarray): the state BEHIND the prediction entry points that a prediction must leave as
+        it is, compared exactly before / after every prediction call.  Generic part: the attribute names of the estimator and
+        every attribute with a plain value (a call counter, a cached flag); TO / ADV add the state of the helper object."""
+        return generic_deep("est", est)
 
     def lean_cfg(self, cfg):
         return "-"
@@ -325,6 +363,31 @@ class TOAdapter(Adapter):
     def attrs(self, est):
         # the fitted dictionary's KEY SET: one entry per sensitive-feature value of the data of the last fit
         return {"interpolation_keys": lambda: _arr(sorted(float(k) for k in est.interpolated_thresholder_.interpolation_dict))}
+
+    def deep(self, est):
+        # the helper object `interpolated_thresholder_` (InterpolatedThresholder): its attributes, every field of every entry of
+        # its interpolation_dict (p0, p1, the two threshold operations, p_ignore, prediction_constant), and the attributes
+        # of the (cloned) base estimator it predicts with
+        out = generic_deep("est", est)
+        it = getattr(est, "interpolated_thresholder_", None)
+        if it is None:
+            return out
+        out.update(generic_deep("helper", it))
+        d = getattr(it, "interpolation_dict", None)
+        if isinstance(d, dict):
+            out["helper.interpolation_dict.keys"] = tuple(sorted(repr(k) for k in d))
+            for key in sorted(d, key=repr):
+                b = d[key]
+                out[f"helper.interpolation_dict[{key!r}].fields"] = tuple(sorted(b))
+                for f in sorted(b):
+                    v = b[f]
+                    if hasattr(v, "operator") and hasattr(v, "threshold"):
+                        v = (v.operator, float(v.threshold))
+                    out[f"helper.interpolation_dict[{key!r}].{f}"] = repr(v)
+        base = getattr(it, "estimator_", None)
+        if base is not None:
+            out.update(generic_deep("helper.estimator_", base))
+        return out
 
     def lean_cfg(self, cfg):
         return "1"
@@ -472,6 +535,12 @@ class ADVAdapter(Adapter):
             return AdversarialFairnessClassifier(backend="torch", predictor_model=[3], adversary_model=[2],
                                                  epochs=1, batch_size=10, learning_rate=0.05, random_state=7,
                                                  warm_start=False)
+        if cfg == "clf-dropout":
+            # a predictor network whose forward pass depends on the train / eval MODE of the module (Dropout): a prediction in
+            # train mode is random, so `evaluate` leaving / putting the network in train mode shows as a non-repeating predict
+            return AdversarialFairnessClassifier(backend="torch", predictor_model=[6, torch.nn.Dropout(0.5), 4],
+                                                 adversary_model=[2], epochs=1, batch_size=10, learning_rate=0.05,
+                                                 random_state=5, warm_start=False)
         if cfg == "reg-eo-shuffle":
             return AdversarialFairnessRegressor(backend="torch", predictor_model=[3], adversary_model=[2],
                                                 constraints="equalized_odds", epochs=2, batch_size=8, shuffle=True,
@@ -489,6 +558,34 @@ class ADVAdapter(Adapter):
         blocks = test_blocks(self, cfg, pair)
         return {"raw": lambda: on_blocks(blocks, lambda X, A: _arr(est._raw_predict(X))),
                 "predict": lambda: on_blocks(blocks, lambda X, A: _arr(est.predict(X)))}
+
+    def deep(self, est):
+        # the helper object `backendEngine_`: its attributes, every parameter / buffer of both networks and the state of both
+        # optimisers (step counters, moment estimates).  NOT compared: `module.training` — the train / eval mode flag is
+        # scratch state by the decision documented in Model/LifecycleSrc.lean (every forward pass is preceded by a mode
+        # selection); its observable effect is compared through the repeated predictions of configuration clf-dropout.
+        out = generic_deep("est", est)
+        eng = getattr(est, "backendEngine_", None)
+        if eng is None:
+            return out
+        out.update(generic_deep("engine", eng))
+        for name in ("predictor_model", "adversary_model"):
+            m = getattr(eng, name, None)
+            if m is not None and hasattr(m, "state_dict"):
+                for k, v in m.state_dict().items():
+                    out[f"engine.{name}.{k}"] = v.detach().cpu().numpy().copy()
+                for k, v in m.named_parameters():
+                    out[f"engine.{name}.{k}.requires_grad"] = bool(v.requires_grad)
+        for name in ("predictor_optimizer", "adversary_optimizer"):
+            opt = getattr(eng, name, None)
+            if opt is not None and hasattr(opt, "state_dict"):
+                sd = opt.state_dict()
+                for i, st in sorted(sd.get("state", {}).items(), key=lambda kv: repr(kv[0])):
+                    for k, v in sorted(st.items()):
+                        out[f"engine.{name}.state[{i}].{k}"] = np.asarray(v.detach().cpu().numpy() if hasattr(v, "detach") else v).copy()
+                for j, g in enumerate(sd.get("param_groups", [])):
+                    out[f"engine.{name}.group[{j}]"] = repr(sorted((k, v) for k, v in g.items() if _plain(v)))
+        return out
 
     def lean_cfg(self, cfg):
         return "0"   # warm_start=False in every configuration (the property's quantifier)
@@ -586,6 +683,7 @@ def nested_state(est):
 # ----------------------------------------------------------------------------------------------
 _TWINS = {}
 _RULES = None
+_STATIC_REPORTED = set()     # source-level correspondence relations already reported in this process
 
 
 def probe_rules():
@@ -648,8 +746,40 @@ def probe_rules():
         except Exception:  # noqa: BLE001
             dead = False
     rules["cr1d"] = "dead" if dead else "live"
+    rules.update(probe_helper_trace())
     _RULES = rules
     return rules
+
+
+HELPER_CLASSES = {"TO": ("dp-proba", ("InterpolatedThresholder",)),
+                  "ADV": ("clf-dp", ("BackendEngine", "PytorchEngine", "TensorflowEngine"))}
+
+
+def probe_helper_trace():
+    """which methods of the helper classes are ENTERED while the prediction entry points of a fitted ThresholdOptimizer / torch
+    adversarial classifier run (sys.setprofile); the lifted closure `helperPredictClosure` must contain every one of them"""
+    import sys
+    out = {}
+    for name, (cfg, classes) in HELPER_CLASSES.items():
+        ad = ADAPTERS[name]
+        est = ad.make(cfg)
+        ad.fit(est, cfg, ad.data(cfg, 0, 1))
+        seen = set()
+
+        def prof(frame, event, arg, seen=seen, classes=classes):
+            if event == "call":
+                q = getattr(frame.f_code, "co_qualname", frame.f_code.co_name)
+                if q.split(".")[0] in classes and "<" not in q:
+                    seen.add(q)
+        thunks = list(ad.probes(est, cfg, 0, 3).values())
+        sys.setprofile(prof)
+        try:
+            for t in thunks:
+                t()
+        finally:
+            sys.setprofile(None)
+        out["trace." + name] = "|".join(sorted(seen)) or "-"
+    return out
 
 
 def twins(ad, cfg, pair):
@@ -726,9 +856,11 @@ def run_sequence(ad, cfg, pair, ops, tw=None):
         elif op[0] == "p":
             seed = int(op[1:])
             attrs_before = sorted(vars(est))
+            deep_before = ad.deep(est)
             a = {k: observe_call(t) for k, t in ad.probes(est, cfg, pair, seed).items()}
             rec["new_attrs"] = sorted(set(vars(est)) ^ set(attrs_before))
             b = {k: observe_call(t) for k, t in ad.probes(est, cfg, pair, seed).items()}
+            rec["deep_changed"] = deep_changed(deep_before, ad.deep(est))
             oks = [k for k in sorted(a) if a[k][0] == "arr"]
             rec["res"] = "ok" if oks else "raise." + a[sorted(a)[0]][1]
             rec["repeat"] = same_snapshot(a, b, ad.atol)
@@ -769,7 +901,12 @@ def run_sequence(ad, cfg, pair, ops, tw=None):
         if "nu" in rec["changed"]:
             rec["nu_before_none"] = before.get("nu") is None
         keys0 = set(vars(est))
+        deep0 = ad.deep(est)
         cur = snapshot(ad, est, cfg, pair)
+        # … nor alter the state behind the prediction entry points (helper objects included)
+        dch = deep_changed(deep0, ad.deep(est))
+        if dch:
+            rec["deep_changed"] = sorted(set(rec.get("deep_changed", [])) | set(dch))
         # the snapshot consists of prediction calls and attribute reads only: it must not add / remove attributes
         snap_attrs = sorted(set(vars(est)) ^ keys0)
         if snap_attrs:
@@ -851,6 +988,14 @@ class CHECK(Check):
                   "the lifted flags (lifesrc.run) and the lifted flags are cross-checked against the runtime probe. "
                   "set_params histories (Model/LifecycleParams.lean): fit after set_params(p=v) = fresh(p=v).fit for every "
                   "history iff fit reads no parameter-derived attribute. prefit=True: the user's estimator is never refitted. "
+                  "PREDICT PURITY ACROSS THE HELPER OBJECTS (lifters/lifecycle_helpers.py): the prediction closure is followed from "
+                  "ThresholdOptimizer.predict/_pmf_predict into InterpolatedThresholder and from _AdversarialFairness.predict/_raw_predict "
+                  "into <engine>.evaluate (base class + both subclasses); writes / in-place stores / mutating calls (also through local "
+                  "aliases), mode calls, forward passes and escapes are generated lists; predictPureSrc is derived from them and guards the "
+                  "predict step of every source-derived machine (src_helper_predict_pure, src_helper_mode_flag_scratch, "
+                  "src_predict_pure_flags, guard_off_breaks_spec); oracle: exact before/after comparison of the helper objects' state "
+                  "(interpolation_dict entries, network parameters, optimiser state, plain attributes) around every prediction, a Dropout "
+                  "network for the mode flag, and the helper methods entered at run time must be in the lifted closure. "
                   "PARTIAL: the machines model latches and attribute presence, "
                   "not Python object identity, pickle or clone internals, nor the learned numbers.")
     design_ref = "DESIGN.md section 4 (C19), section 5 (F5a-F5e), section 6 (partial)"
@@ -903,13 +1048,30 @@ class CHECK(Check):
                "setattr with a literal name) inside the class's own methods is the only way get_params()[name] changes; the "
                "callees that receive `self` (sklearn validate_data / check_is_fitted / is_classifier, type, user callbacks, the "
                "backend engine constructor) do not rebind constructor parameters; calls into other classes are not followed "
-               "except ExponentiatedGradient -> _Lagrangian",
+               "except ExponentiatedGradient -> _Lagrangian (fit) and, for the PREDICTION closure, ThresholdOptimizer -> "
+               "InterpolatedThresholder (interpolated_thresholder_) and _AdversarialFairness -> BackendEngine / PytorchEngine / "
+               "TensorflowEngine (backendEngine_), lifters/lifecycle_helpers.py",
+               "inside the helper classes: a method call on a helper attribute mutates iff its name is in the lifter's MUTATING list "
+               "or ends in `_` (torch in-place convention); names in its PURE list (items, parameters, numpy, detach, ..) do not; any "
+               "other name is refused.  `_get_soft_predictions(estimator_, ..)` and the forward pass of the user's torch / keras module "
+               "in eval mode do not alter the helper object (the user's base estimator / network is outside fairlearn); "
+               "ThresholdOperation.__call__ is checked to contain no store",
+               "DECISION: the train/eval MODE FLAG of a torch module (written by PytorchEngine.evaluate: predictor_model.eval()) is NOT "
+               "fitted state, provided every forward pass in evaluate and in train_step is preceded by a mode selection (lifted, "
+               "theorem src_helper_mode_flag_scratch); parameters, buffers, optimiser state and every attribute ARE",
+               "`.retSelf` of the EG / TO / CR machine steps and `pickle = identity on the modelled state` stay MODELLED (the lifted "
+               "fitReturns table is proved [\"self\"] for every class, but only the GridSearch rule flag and advStepSrc are computed "
+               "from it)",
                "set_params(p=v) is setattr(self, p, v) (sklearn BaseEstimator); clone re-runs __init__ on get_params()",
                "torch is deterministic for a fixed random_state on one thread")
     assumptions = ("adversarial estimators are constructed with warm_start=False and an integer random_state",
                    "ThresholdOptimizer: prefit=False, and one configuration prefit=True around a learner the harness fitted once (its "
                    "unfitted clone raises AttributeError from predict_proba)", "every data set contains all classes and both groups",
-                   "pickling a set-up adversarial estimator is not claimed by the property (result not judged, state is)")
+                   "pickling a set-up adversarial estimator is not claimed by the property (result not judged, state is)",
+                   "helper objects: only the torch backend is executed (tensorflow is not installed; TensorflowEngine.evaluate is "
+                   "covered by the lifted lists and theorems only); the torch train/eval mode flag is not compared as state (see trusted)",
+                   "F5g (known finding): CorrelationRemover.transform rewrites n_features_in_ / feature_names_in_ through "
+                   "validate_data(reset=True); exactly these two names are tolerated for class CR")
 
     # ---------------------------------------------------------------- generation
     def _cfgs(self, ad, tier):
@@ -917,6 +1079,7 @@ class CHECK(Check):
 
     def generate(self, rng, tier):
         # the two small families first (a run that is cut by the wall-clock budget still covers them)
+        yield from self.helper_family(tier)
         yield from self.layout_family(tier)
         yield from self.params_family(tier)
         if tier == "quick":
@@ -943,6 +1106,12 @@ class CHECK(Check):
                 o = rng.choice(["f1", "f2", "f1", "f2", "p", "k", "c"])
                 ops.append("p" + str(rng.randint(0, 9)) if o == "p" else o)
             yield {"cls": name, "cfg": cfg, "pair": rng.randint(0, N_PAIRS - 1), "ops": ops}
+
+    def helper_family(self, tier):
+        """predictions THROUGH the helper objects: an adversarial classifier whose predictor network contains Dropout (the
+        forward pass depends on the train / eval mode of the module) — predict right after fit, twice, around a refit"""
+        for ops in (["f1", "p3", "p3"], ["f1", "p3", "f2"], ["f2", "p1", "f1", "p1"]):
+            yield {"cls": "ADV", "cfg": "clf-dropout", "pair": 0, "ops": list(ops)}
 
     def layout_family(self, tier):
         """refits on data pairs whose group sets / row counts / column counts / label balance differ (pairs 3-5)"""
@@ -1048,6 +1217,12 @@ class CHECK(Check):
                 probs.append(mk("property", f"{where}: the first prediction snapshot after the operation is not repeated by the "
                                 f"second one (a prediction call altered the fitted state): {rec['first_vs_second']}",
                                 "C19.predict_pure", what="first-vs-second", **base))
+            if rec.get("deep_changed"):
+                probs.append(mk("property", f"{where}: a prediction call (predict / _pmf_predict / _raw_predict / transform on fixed "
+                                f"test inputs) altered the state behind it (estimator attributes, helper object "
+                                f"interpolated_thresholder_ / backendEngine_: attributes, interpolation_dict entries, network "
+                                f"parameters, optimiser state): {rec['deep_changed'][:6]}",
+                                "C19.predict_pure", what="helper-state", names=list(rec["deep_changed"]), **base))
             if op[0] == "f":
                 d = int(op[1:])
                 refit = bool(fitted_since_clone)
@@ -1123,6 +1298,23 @@ class CHECK(Check):
                                     f"rule {key}: lifted from the source = {flags.get(key)}, probed on the running code = "
                                     f"{o['rules'].get(key)} (flags {mo[3]})", "C19.static_vs_probe", cls=name, cfg=cfg))
                     break
+            # (c') helper methods entered at run time during predictions ⊆ the closure the lifter followed; purity flags on
+            # (both are facts about the source text, the same for every case: reported ONCE per run, so that they do not fill
+            #  the violation list before a case with a concrete failing input has been reached)
+            lifted = set(flags.get("helperClosure", "").split("|"))
+            for key in (("trace.TO", "trace.ADV") if "closure" not in _STATIC_REPORTED else ()):
+                entered = [q for q in o["rules"].get(key, "-").split("|") if q != "-"]
+                missing = [q for q in entered if q not in lifted]
+                if missing or not entered:
+                    probs.append(mk("correspondence", f"helper methods entered during predictions ({key}): {entered}; not in the lifted "
+                                    f"closure helperPredictClosure: {missing} (lifted {sorted(lifted)})",
+                                    "C19.helper_closure_vs_trace", cls=name, cfg=cfg))
+                    _STATIC_REPORTED.add("closure")
+                    break
+            if "flags" not in _STATIC_REPORTED and (flags.get("predictPure") != "1" or "0" in flags.get("helperPure", "0")):
+                _STATIC_REPORTED.add("flags")
+                probs.append(mk("correspondence", f"the lifted predict-purity flags are not all on: predictPure={flags.get('predictPure')} "
+                                f"helperPure={flags.get('helperPure')} (IT,BE,PT,TF)", "C19.predict_pure_flags", cls=name, cfg=cfg))
             if o["rules"].get("cr1d") != "dead":
                 probs.append(mk("correspondence", "CorrelationRemover.fit on 1-d input no longer raises: the static path "
                                 "that leaves lookup_ of an earlier fit in place is live", "C19.cr_1d_path_dead",
@@ -1172,6 +1364,12 @@ class CHECK(Check):
                 probs.append(mk("property", f"{where}: the first prediction snapshot after the operation is not repeated by the "
                                 f"second one (a prediction call altered the fitted state): {rec['first_vs_second']}",
                                 "C19.predict_pure", what="first-vs-second", **base))
+            if rec.get("deep_changed"):
+                probs.append(mk("property", f"{where}: a prediction call (predict / _pmf_predict / _raw_predict / transform on fixed "
+                                f"test inputs) altered the state behind it (estimator attributes, helper object "
+                                f"interpolated_thresholder_ / backendEngine_: attributes, interpolation_dict entries, network "
+                                f"parameters, optimiser state): {rec['deep_changed'][:6]}",
+                                "C19.predict_pure", what="helper-state", names=list(rec["deep_changed"]), **base))
             if op[0] == "f":
                 d = int(op[1:])
                 fitted = (d, p)
@@ -1241,7 +1439,9 @@ class CHECK(Check):
                 tags.append(f"{rec['op'][0]}->{rec['res']}")
                 tags.append("state=" + ("|".join(rec["cls"]) or "X"))
             tags.append("rules=" + ",".join(f"{k}:{'current' if v == '0' else 'repaired' + ('' if v == '1' else v)}"
-                                            for k, v in sorted(o["rules"].items())))
+                                            for k, v in sorted(o["rules"].items()) if not k.startswith("trace.")))
+            if case["cfg"] == "clf-dropout":
+                tags.append("family=helper")
         nontriv = len(ops) >= 2 and any(x[0] == "f" for x in ops)
         return key, nontriv, tags
 
@@ -1278,4 +1478,9 @@ class CHECK(Check):
         elif (cls == "CR" and rel == "C19.fit_total" and info.get("exc") == "ValueError"
               and info.get("width_change")):
             hit = "F5e"
+        # F5g: CorrelationRemover.transform -> validate_data(self, X) with reset=True rewrites exactly the two sklearn
+        #      bookkeeping attributes n_features_in_ / feature_names_in_ (any other attribute is still a violation)
+        elif (cls == "CR" and rel == "C19.predict_pure" and info.get("what") == "helper-state" and info.get("names")
+              and set(info["names"]) <= {"est.n_features_in_", "est.feature_names_in_"}):
+            hit = "F5g"
         return by_id.get(hit) if hit else None
